@@ -3,5 +3,5 @@ Require Import ExtrOcamlBasic.
 Extraction Language OCaml.
 Extraction "model.ml" x86_64 all_types mkSex zero_sample raw_put raw_decode raw_layout
   mkOop oop_put oop_finish oop_abs oop_get
-  sie_open sie_put sie_get sie_seek sie_reopen sie_abs sie_layout sie_parse recs
+  sie_open sie_put sie_get sie_seek sie_put_fx sie_reopen sie_abs sie_layout sie_parse recs
   array_write bit_out bit_in mplex_spec mplex_code text_put_bytes render.
